@@ -46,6 +46,16 @@ Proof.
   rewrite Hh, Hl in C. apply pyres_str_eqb_ok in C. tauto.
 Qed.
 
+Definition hexdigits_str : pystr := [48; 49; 50; 51; 52; 53; 54; 55; 56; 57; 97; 98; 99; 100; 101; 102; 65; 66; 67; 68; 69; 70]%N.
+Definition hexdigits_check : bool :=
+  forallb (fun c => match hexval c with Some _ => py_in_chars [c] hexdigits_str | None => negb (py_in_chars [c] hexdigits_str) end) bytes256.
+Lemma hexdigits_check_ok : hexdigits_check = true. Proof. vm_compute. reflexivity. Qed.
+Lemma hexval_in_hexdigits c v : hexval c = Some v -> py_in_chars [c] hexdigits_str = true.
+Proof.
+  intros H. pose proof hexdigits_check_ok as C. unfold hexdigits_check in C. rewrite forallb_forall in C.
+  specialize (C c (in_bytes256 c (proj1 (hexval_lt _ _ H)))). rewrite H in C. exact C.
+Qed.
+
 (** ** _convert_string *)
 Ltac idx :=
   repeat (progress (repeat first [ rewrite ltb_len_in | rewrite py_index_at | rewrite str_eqb_single ];
@@ -70,10 +80,11 @@ Proof.
     replace (pre ++ 92%N :: c :: s) with ((pre ++ [92%N]) ++ c :: s) by (rewrite <- app_assoc; reflexivity).
     idx.
     assert (Hx : N.eqb c 120 = false /\ N.eqb c 117 = false /\
+       py_in_chars [c] [110; 114; 116; 98; 48; 34; 92]%N = true /\
        dict_get [([110]%N, [10]%N); ([114]%N, [13]%N); ([116]%N, [9]%N); ([98]%N, [8]%N); ([48]%N, [0]%N); ([34]%N, [34]%N); ([92]%N, [92]%N)] [c] = Ok [v]).
     { unfold simple_escapes in He. simpl in He.
       repeat (destruct He as [He|He]; [inversion He; subst; repeat split; reflexivity|]). contradiction. }
-    destruct Hx as [Hx1 [Hx2 Hd]]. rewrite Hx1. idx. rewrite Hx2. idx. rewrite Hd. cbn [bind].
+    destruct Hx as [Hx1 [Hx2 [Hin Hd]]]. rewrite Hx1. idx. rewrite Hx2. idx. rewrite Hin. cbn [negb]. idx. rewrite Hd. cbn [bind].
     rewrite (py_len_snoc (pre ++ [92%N]) c).
     replace ((pre ++ [92%N]) ++ c :: s) with (((pre ++ [92%N]) ++ [c]) ++ s) by (rewrite <- !app_assoc; reflexivity).
     rewrite IH by (simpl in Hf; lia). rewrite <- app_assoc. reflexivity.
@@ -87,6 +98,10 @@ Proof.
     replace ((pre ++ [92%N]) ++ 120%N :: h :: l :: s) with (((pre ++ [92%N]) ++ [120%N]) ++ [h; l] ++ s)
       by (rewrite <- !app_assoc; reflexivity).
     rewrite py_slice_mid.
+    replace (py_len [h; l] =? 2)%Z with true by reflexivity. cbn [negb].
+    replace (py_index [h; l] 0) with (Ok [h] : pyres pystr) by reflexivity.
+    replace (py_index [h; l] 1) with (Ok [l] : pyres pystr) by reflexivity. cbn [bind].
+    fold hexdigits_str. rewrite (hexval_in_hexdigits h vh Hh), (hexval_in_hexdigits l vl Hl). cbn [negb].
     pose proof (hex2 h l vh vl Hh Hl) as H2.
     destruct (py_int_lit [h; l] 16) as [t| |]; cbn [bind] in H2 |- *; try discriminate.
     rewrite H2. cbn [bind].
